@@ -37,10 +37,11 @@ const (
 	c14Type
 	c14Keys
 	c14Syntax
+	c14KindLater
 	c14NumVersions
 )
 
-var c14VersionNames = []string{"identical", "comment-only-edit", "declaration-moved", "kind-changed", "type-changed", "keys-changed", "syntax-error"}
+var c14VersionNames = []string{"identical", "comment-only-edit", "declaration-moved", "kind-changed", "type-changed", "keys-changed", "syntax-error", "later-declaration-kind-changed"}
 
 func c14Source(variant, edit int) string {
 	hits := "counter hits"
@@ -58,10 +59,12 @@ func c14Source(variant, edit int) string {
 	case c14Keys:
 		bytag = "counter bytag by tag, n"
 		idx = "bytag[$tag][$n]"
+	case c14KindLater:
+		bytag = "gauge bytag by tag"
 	}
-	body := fmt.Sprintf("%s%s\n%s\ngauge g\n/^(?P<tag>[a-c]) (?P<n>%s)$/ {\n  hits++\n  %s++\n  g = $n\n}\n", head, hits, bytag, num, idx)
+	body := fmt.Sprintf("%s%s\n%s\ngauge g\n/^(?P<tag>[a-e]) (?P<n>%s)$/ {\n  hits++\n  %s++\n  g = $n\n}\n", head, hits, bytag, num, idx)
 	if variant != c14Keys {
-		body += "/^del (?P<tag>[a-c])$/ {\n  del bytag[$tag] after 1h\n}\n"
+		body += "/^del (?P<tag>[a-e])$/ {\n  del bytag[$tag] after 1h\n}\n"
 	}
 	if variant == c14Syntax {
 		body += "/unterminated {\n"
@@ -149,6 +152,7 @@ func propC14(e *Env) {
 		return
 	}
 	model := &c14Model{bytag: map[string]int64{}, expiry: map[string]time.Duration{}, tracking: true}
+	loaded := true // p is currently loaded
 	lastUpdate := map[string]time.Time{}
 	var did []string
 	hist := func() string { return strings.Join(did, "; ") }
@@ -243,6 +247,9 @@ func propC14(e *Env) {
 		}
 		now := time.Now()
 		for _, l := range ls {
+			if !loaded {
+				continue // nobody is listening
+			}
 			if curVariant != c14Keys || !strings.HasPrefix(l, "del ") {
 				model.line(l)
 			}
@@ -283,10 +290,34 @@ func propC14(e *Env) {
 	}
 	nact := 1 + e.Choose("gen", 7)
 	for i := 0; i < nact && !e.Failed(); i++ {
-		switch a := e.Choose("gen", 10); {
-		case a <= 4: // reload p with some version
+		switch a := e.Choose("gen", 11); {
+		case a == 10 && loaded: // the program file disappears: p is unloaded, its metrics stay exported
+			os.Remove(filepath.Join(dir, p))
+			relDone := false
+			r.reload(&relDone, nil)
+			if !r.quiesce() {
+				return
+			}
+			if !relDone {
+				e.Fail("reload-stuck", "history [%s]: reload after removing p did not return; live: %s", hist(), liveString(e))
+				return
+			}
+			loaded = false
+			did = append(did, "unload p")
+			e.Probe("unload")
+			if !checkState("unload") {
+				return
+			}
+			if _, ok := checkExport("unload"); !ok {
+				return
+			}
+		case a <= 4 || a == 10: // reload p with some version (or load it again after an unload)
 			variant := e.Choose("gen", c14NumVersions)
 			name := c14VersionNames[variant]
+			wasLoaded := loaded
+			if !wasLoaded {
+				e.Probe("load_after_unload")
+			}
 			if variant == c14Comment {
 				edit++
 			}
@@ -323,9 +354,26 @@ func propC14(e *Env) {
 			delta := snapProg(p).sub(beforeCnt)
 			did = append(did, "reload p:"+name)
 			e.Probe("reload_" + name)
-			loaded := delta.loads > 0
+			didLoad := delta.loads > 0
 			now := time.Now()
+			if didLoad {
+				loaded = true
+			}
+			if !wasLoaded {
+				did[len(did)-1] = "load again p:" + name
+			}
 			switch {
+			case name == "identical" && !wasLoaded:
+				// the same text as the version that was unloaded: declarations kept, values carried over
+				if delta.loads != 1 {
+					e.Fail("eligible-not-loaded", "history [%s]: p was put back unchanged but was not loaded (loads=%d errors=%d)", hist(), delta.loads, delta.loadErrs)
+					return
+				}
+				for _, l := range ls {
+					_ = l // lines that flowed while p was being loaded may or may not have reached it
+					resync()
+				}
+				e.Probe("kept_declarations_reload")
 			case name == "identical":
 				if delta.loads != 0 || delta.loadErrs != 0 || delta.unloads != 0 {
 					e.Fail("identical-reload-changed-state", "history [%s]: reloading identical source counted loads=%d errors=%d unloads=%d", hist(), delta.loads, delta.loadErrs, delta.unloads)
@@ -346,10 +394,10 @@ func propC14(e *Env) {
 						lastUpdate[tag] = now
 					}
 				}
-			case variant == c14Syntax || !loaded:
+			case variant == c14Syntax || !didLoad:
 				// failed load (compile error, or registration refused): the export
 				// stays exactly as it was and the previous version keeps running
-				if variant == c14Syntax && loaded {
+				if variant == c14Syntax && didLoad {
 					e.Fail("broken-program-loaded", "history [%s]: a program with a syntax error counted as loaded", hist())
 					return
 				}
@@ -365,6 +413,9 @@ func propC14(e *Env) {
 					}
 				}
 				for _, l := range ls {
+					if !wasLoaded {
+						continue
+					}
 					if curVariant != c14Keys || !strings.HasPrefix(l, "del ") {
 						model.line(l)
 					}
@@ -375,8 +426,8 @@ func propC14(e *Env) {
 					}
 				}
 				// the previous version must still be running and exported: feed a line that creates a NEW tuple
-				if model.tracking {
-					probe := []string{"c 7", "b 3", "a 1"}
+				if model.tracking && wasLoaded {
+					probe := []string{"d 7", "e 3", "a 1"}
 					if !feed(probe) {
 						return
 					}
@@ -389,6 +440,9 @@ func propC14(e *Env) {
 				}
 			default:
 				// successful load of an edited program
+				if !wasLoaded && len(ls) > 0 {
+					resync()
+				}
 				for _, l := range ls {
 					// each line was processed by exactly one version; both interpret lines identically except keys-changed
 					if variant == c14Keys || curVariant == c14Keys {
